@@ -2,6 +2,7 @@ package main
 
 import (
 	"go/constant"
+	"go/token"
 	"go/types"
 	"strings"
 
@@ -71,7 +72,7 @@ func (c *Ctx) fieldAddrMutated(fa ssa.Value, depth int) bool {
 			if r.Addr != fa {
 				return true // the address itself is stored somewhere
 			}
-			if rootAlloc(fa) == nil {
+			if rootAlloc(fa) == nil && !c.freshOnlyParam(rootParam(fa), 0) {
 				return true
 			}
 		case *ssa.FieldAddr:
@@ -306,4 +307,173 @@ func (c *Ctx) initOnlyGlobal(g *ssa.Global) bool {
 	}
 	c.initOnly[g] = ok
 	return ok
+}
+
+// globalAlias: a module package variable that package initialisation sets once to the value of another
+// package variable (var text = base64.RawStdEncoding) and that nothing else writes is the same value under
+// another name; loads of it are loads of the original.
+func (c *Ctx) globalAlias(g *ssa.Global) *ssa.Global {
+	if c.aliasOf == nil {
+		c.aliasOf = map[*ssa.Global]*ssa.Global{}
+	}
+	if a, ok := c.aliasOf[g]; ok {
+		return a
+	}
+	c.aliasOf[g] = g
+	if g.Pkg == nil || !c.inModule(g.Pkg.Pkg) || !c.initOnlyGlobal(g) {
+		return g
+	}
+	var target *ssa.Global
+	n := 0
+	for _, m := range g.Pkg.Members {
+		fn, ok := m.(*ssa.Function)
+		if !ok || fn.Name() != "init" {
+			continue
+		}
+		for _, b := range fn.Blocks {
+			for _, in := range b.Instrs {
+				st, ok := in.(*ssa.Store)
+				if !ok || st.Addr != ssa.Value(g) {
+					continue
+				}
+				n++
+				if u, ok := st.Val.(*ssa.UnOp); ok && u.Op == token.MUL {
+					if t, ok := u.X.(*ssa.Global); ok && t != g {
+						target = t
+					}
+				}
+			}
+		}
+	}
+	if n != 1 || target == nil || !types.Identical(target.Type(), g.Type()) {
+		return g
+	}
+	if target.Pkg != nil && c.inModule(target.Pkg.Pkg) && !c.initOnlyGlobal(target) {
+		return g
+	}
+	// initOnlyGlobal ignores the init functions themselves; the alias must also not be re-assigned by init#n
+	for _, m := range g.Pkg.Members {
+		fn, ok := m.(*ssa.Function)
+		if !ok || !strings.HasPrefix(fn.Name(), "init#") {
+			continue
+		}
+		for _, b := range fn.Blocks {
+			for _, in := range b.Instrs {
+				if st, ok := in.(*ssa.Store); ok && st.Addr == ssa.Value(g) {
+					return g
+				}
+			}
+		}
+	}
+	c.aliasOf[g] = c.globalAlias(target)
+	return c.aliasOf[g]
+}
+
+// rootParam: the parameter a field/element address is computed from (p.f.g -> p), nil otherwise.
+func rootParam(v ssa.Value) *ssa.Parameter {
+	for i := 0; i < 8; i++ {
+		switch x := v.(type) {
+		case *ssa.Parameter:
+			return x
+		case *ssa.FieldAddr:
+			v = x.X
+		case *ssa.IndexAddr:
+			v = x.X
+		default:
+			return nil
+		}
+	}
+	return nil
+}
+
+// freshOnlyParam: the parameter of an unexported function that is only ever called directly, and at every call
+// site receives (part of) an object its caller has just allocated — a constructor's helper (`n.init(node)` in
+// NewNode): what it stores into that object is construction, not mutation.
+func (c *Ctx) freshOnlyParam(p *ssa.Parameter, depth int) bool {
+	if p == nil || depth > 2 {
+		return false
+	}
+	fn := p.Parent()
+	if fn == nil || fn.Pkg == nil || fn.Parent() != nil || token.IsExported(fn.Name()) || !c.fnInModule(fn) {
+		return false
+	}
+	idx := -1
+	for i, q := range fn.Params {
+		if q == p {
+			idx = i
+		}
+	}
+	if idx < 0 {
+		return false
+	}
+	if fn.Signature.Recv() != nil {
+		// not reachable through an interface of its package
+		sc := fn.Pkg.Pkg.Scope()
+		for _, n := range sc.Names() {
+			tn, ok := sc.Lookup(n).(*types.TypeName)
+			if !ok {
+				continue
+			}
+			if it, ok := tn.Type().Underlying().(*types.Interface); ok {
+				for i := 0; i < it.NumMethods(); i++ {
+					if it.Method(i).Name() == fn.Name() {
+						return false
+					}
+				}
+			}
+		}
+	}
+	if c.callersOf == nil {
+		c.callersOf = map[*ssa.Function][]ssa.CallInstruction{}
+		c.usedAsValue = map[*ssa.Function]bool{}
+		for f := range allFunctions(c.Prog) {
+			if !c.fnInModule(f) {
+				continue
+			}
+			for _, b := range f.Blocks {
+				for _, in := range b.Instrs {
+					var callee ssa.Value
+					if ci, ok := in.(ssa.CallInstruction); ok && !ci.Common().IsInvoke() {
+						callee = ci.Common().Value
+						if g, ok := callee.(*ssa.Function); ok {
+							c.callersOf[g] = append(c.callersOf[g], ci)
+						}
+					}
+					for _, op := range in.Operands(nil) {
+						if g, ok := (*op).(*ssa.Function); ok && (callee == nil || op != callOperand(in)) {
+							c.usedAsValue[g] = true
+						}
+					}
+				}
+			}
+		}
+	}
+	if c.usedAsValue[fn] || len(c.callersOf[fn]) == 0 {
+		return false
+	}
+	for _, ci := range c.callersOf[fn] {
+		args := ci.Common().Args
+		if idx >= len(args) {
+			return false
+		}
+		if _, isGo := ci.(*ssa.Go); isGo {
+			return false
+		}
+		a := args[idx]
+		if rootAlloc(a) != nil {
+			continue
+		}
+		if !c.freshOnlyParam(rootParam(a), depth+1) {
+			return false
+		}
+	}
+	return true
+}
+
+// callOperand: the operand slot of a call instruction that holds the callee.
+func callOperand(in ssa.Instruction) *ssa.Value {
+	if ci, ok := in.(ssa.CallInstruction); ok {
+		return &ci.Common().Value
+	}
+	return nil
 }
